@@ -4,7 +4,7 @@
      -> true | false:<index>:<field>:<ref kind code or ->:<ref raw hex>
    err <srchex>            the implementation raised on this source -> true|false
    same <toks> <toks>      -> true|false
-   count <srchex>          -> reference token count or NONE *)
+   count <srchex>          -> the counting rule of get_token_count applied to the reference tokens, or NONE *)
 (* arbitrary-size integers as [-]0x<hex> (io.ml's str_of_z / z_of_str go through OCaml's 63-bit int) *)
 let rec pos_bits p = match p with XH -> [1] | XO q -> 0 :: pos_bits q | XI q -> 1 :: pos_bits q
 let bigstr_of_z x =
@@ -61,6 +61,6 @@ let handle fields =
   | ["err"; src] -> string_of_bool (holds_C07_error (bytes_of_hex src))
   | ["same"; a; b] -> string_of_bool (holds_C07_chunking (parse_toks a) (parse_toks b))
   | ["count"; src] ->
-    (match spec_lex (bytes_of_hex src) with Some ts -> str_of_z (spec_token_count ts) | None -> "NONE")
+    (match spec_lex (bytes_of_hex src) with Some ts -> str_of_z (spec_token_count_e ts) | None -> "NONE")
   | _ -> failwith "bad request"
 let () = main_loop handle
